@@ -2,7 +2,7 @@ import LopdfModel.Thm.C17
 /-
   C17 (2) — `toc_readback`: on a document that embeds the outline of a forest with pairwise distinct
   titles whose target pages are in the page tree, `get_toc` returns the preorder of the forest with
-  levels and page numbers, for all sufficient fuel.
+  levels and page numbers (no fuel: the reader terminates by its own guard).
 -/
 namespace Lopdf.C17
 open Lopdf Gen
@@ -12,30 +12,43 @@ abbrev IdsTab := List (Bytes × ObjId × Nat)
 def entry (e : Nat × List Nat × ObjId) : Bytes × ObjId × Nat := (titleBytes e.2.1, e.2.2, e.1)
 def tbOf (e : Nat × List Nat × ObjId) : Bytes := titleBytes e.2.1
 
-theorem idsInsert_absent (m : IdsTab) (k : Bytes) (v : ObjId × Nat) (h : k ∉ m.map (·.1)) :
-    idsInsert m k v = m ++ [(k, v)] := by
+theorem tocInsert_absent (m : IdsTab) (k : Bytes) (v : ObjId × Nat) (h : k ∉ m.map (·.1)) :
+    Q13.tocInsert k v m = m ++ [(k, v)] := by
   induction m with
   | nil => rfl
   | cons e r ih =>
     obtain ⟨k', v'⟩ := e
     simp only [List.map_cons, List.mem_cons, not_or] at h
     have : ¬ k' = k := fun e => h.1 e.symm
-    simp [idsInsert, this, ih h.2]
+    simp [Q13.tocInsert, this, ih h.2]
 
-theorem setupIdsL_append (lvl : Nat) : ∀ (a b : List Outline) (acc : IdsTab),
-    setupIdsL lvl (a ++ b) acc =
-      match setupIdsL lvl a acc with
+theorem tocIdsList_append (lvl : Nat) : ∀ (a b : List Q13.Outline) (acc : IdsTab),
+    Q13.tocIdsList lvl (a ++ b) acc =
+      match Q13.tocIdsList lvl a acc with
       | none => none
-      | some acc' => setupIdsL lvl b acc' := by
+      | some acc' => Q13.tocIdsList lvl b acc' := by
   intro a
   induction a with
-  | nil => intro b acc; simp [setupIdsL]
+  | nil => intro b acc; simp [Q13.tocIdsList]
   | cons o r ih =>
     intro b acc
-    simp only [List.cons_append, setupIdsL]
-    cases setupIds lvl o acc with
+    simp only [List.cons_append, Q13.tocIdsList]
+    cases Q13.tocIdsOne lvl o acc with
     | none => rfl
     | some acc' => exact ih b acc'
+
+/-- `setup_outline_page_ids` on one destination of a built item -/
+theorem tocIdsOne_dest (lvl : Nat) (title : List Nat) (page : ObjId) (acc : IdsTab) :
+    Q13.tocIdsOne lvl (destOf title page) acc = some (Q13.tocInsert (titleBytes title) (page, lvl) acc) := by
+  have h1 : (Q13.mkDest (.str (titleBytes title) .lit) (oref page) (.name OL_FIT)).get Q13.K_Title =
+      some (.str (titleBytes title) .lit) := by
+    simp only [Q13.mkDest]
+    rw [Dict.get_set_ne _ _ _ _ (by decide), Dict.get_set_ne _ _ _ _ (by decide), Dict.get_set_eq]
+  have h2 : (Q13.mkDest (.str (titleBytes title) .lit) (oref page) (.name OL_FIT)).get PAGE = some (oref page) := by
+    simp only [Q13.mkDest]
+    rw [Dict.get_set_ne _ _ _ _ (by decide), Dict.get_set_eq]
+  simp only [destOf, Q13.tocIdsOne, h1, h2]
+  simp [Obj.asStr, oref, Obj.asRef]
 
 theorem map_entry_keys (l : List (Nat × List Nat × ObjId)) : (l.map entry).map (·.1) = l.map tbOf := by
   induction l with
@@ -52,16 +65,16 @@ bookmark in preorder — (title bytes, page, level) — provided the title bytes
 and not yet in the table (otherwise `IndexMap::insert` overwrites: F-C17-a). -/
 theorem setupIds_out : ∀ (n : Nat) (ts : List BT), BT.sizeL ts ≤ n → ∀ (lvl : Nat) (acc : IdsTab),
     (acc.map (·.1) ++ (BT.preL lvl ts).map tbOf).Nodup →
-    setupIdsL lvl (outL ts) acc = some (acc ++ (BT.preL lvl ts).map entry) := by
+    Q13.tocIdsList lvl (outL ts) acc = some (acc ++ (BT.preL lvl ts).map entry) := by
   intro n
   induction n with
   | zero =>
     intro ts h; have := BT.sizeL_eq_zero (Nat.le_zero.mp h); subst this
-    intro lvl acc _; simp [outL, setupIdsL, BT.preL]
+    intro lvl acc _; simp [outL, Q13.tocIdsList, BT.preL]
   | succ n ih =>
     intro ts hsz lvl acc hnd
     cases ts with
-    | nil => simp [outL, setupIdsL, BT.preL]
+    | nil => simp [outL, Q13.tocIdsList, BT.preL]
     | cons t r =>
       cases t with
       | node id title f c page kids =>
@@ -75,19 +88,19 @@ theorem setupIds_out : ∀ (n : Nat) (ts : List BT), BT.sizeL ts ≤ n → ∀ (
           have := (List.nodup_append.mp hnd').1
           have := (List.nodup_append.mp this).2.2
           intro hmem; exact this _ hmem _ (by simp) rfl
-        have hins : idsInsert acc (titleBytes title) (page, lvl) = acc ++ [(titleBytes title, page, lvl)] :=
-          idsInsert_absent acc _ _ hx
+        have hins : Q13.tocInsert (titleBytes title) (page, lvl) acc = acc ++ [(titleBytes title, page, lvl)] :=
+          tocInsert_absent acc _ _ hx
         have hkeys1 : (acc ++ [(titleBytes title, page, lvl)]).map (·.1) = acc.map (·.1) ++ [titleBytes title] := by simp
         simp only [outL, outN]
-        rw [List.cons_append, setupIdsL]
-        simp only [setupIds, oref, hins]
+        rw [List.cons_append, Q13.tocIdsList]
+        simp only [tocIdsOne_dest, hins]
         cases kids with
         | nil =>
           simp only [List.isEmpty_nil, if_true, List.nil_append, BT.preL, List.map_nil, List.nil_append] at hnd' ⊢
           rw [ih r (by omega) lvl _ (by rw [hkeys1]; exact hnd')]
           simp [entry, List.append_assoc]
         | cons k ks =>
-          simp only [List.isEmpty_cons, Bool.false_eq_true, if_false, List.cons_append, List.nil_append, setupIdsL, setupIds]
+          simp only [List.isEmpty_cons, Bool.false_eq_true, if_false, List.cons_append, List.nil_append, Q13.tocIdsList, Q13.tocIdsOne]
           have hk := ih (k :: ks) (by simp only [BT.sizeL] at hsz ⊢; omega) (lvl + 1) (acc ++ [(titleBytes title, page, lvl)])
             (by
               rw [hkeys1]
@@ -180,11 +193,11 @@ theorem nodup_titleBytes : ∀ (l : List (Nat × List Nat × ObjId)),
 of a non-empty forest `ts` and embed the forest (`EmbL`, the conclusion of `outline_links`); let the
 catalog have no `Dests`/`Names`; let the page tree enumerate `pages` without repetition and contain
 every bookmark's target page; let the titles be strings (scalar values) and pairwise distinct.  Then
-for ALL fuel ≥ the number of bookmarks (such fuel exists: the embedded outline is finite and acyclic)
-`get_toc` returns exactly the preorder of the forest — level (top level = 1), title, page number
-(position in the page tree + 1) — and no errors. -/
+`get_toc` — whose walk over `First`/`Next` is fuel-free and guarded by the `seen` set of bca5e67, which
+never fires on a built outline — returns exactly the preorder of the forest: level (top level = 1),
+title, page number (position in the page tree + 1), and no errors. -/
 theorem toc_readback (tr : Dict) (os : Objects) (catd : Dict) (ts : List BT) (m : Nat) (pages : List ObjId)
-    (hcat : catalogOf tr os = some catd)
+    (hcat : Q13.catalog tr os = some catd)
     (hout : catd.get RD_OUTLINES = some (.ref m 0))
     (hnd : catd.get RD_DESTS = none) (hnn : catd.get RD_NAMES = none)
     (hroot : dictAt os (m, 0) = some (rootDict ts m))
@@ -192,19 +205,22 @@ theorem toc_readback (tr : Dict) (os : Objects) (catd : Dict) (ts : List BT) (m 
     (hpages : pageIter tr os = pages) (hnodup : pages.Nodup)
     (htarget : ∀ e ∈ BT.preL 1 ts, e.2.2 ∈ pages)
     (hscalar : ∀ e ∈ BT.preL 1 ts, ∀ c ∈ e.2.1, IsScalar c)
-    (hdistinct : ((BT.preL 1 ts).map (fun e => e.2.1)).Nodup)
-    (fuel : Nat) (hfuel : BT.sizeL ts ≤ fuel) :
-    getToc fuel tr os =
+    (hdistinct : ((BT.preL 1 ts).map (fun e => e.2.1)).Nodup) :
+    getToc tr os =
       .ok ((BT.preL 1 ts).map (fun e => { level := e.1, title := e.2.1, page := pageIndex pages e.2.2 + 1 })) 0 := by
   cases ts with
   | nil => exact absurd rfl hne
   | cons t r =>
     have hrootd := getDictionary_of_dictAt hroot
     have hfirst := getDictionary_of_dictAt (EmbL_head hemb)
-    have hwalk := walk_emb os fuel t r m (m, 0) none [] hfuel hemb
-    have hgo : getOutlines fuel tr os = .res (.ok (outL (t :: r))) := by
-      simp only [getOutlines, hcat, getDictInDict, hout, hrootd, rootDict_get_first, firstId_cons, Option.map, oref,
-        hfirst, hnd, hnn, hwalk]
+    obtain ⟨seen', hwalk, _⟩ := walk_emb os _ t r (Nat.le_refl _) m (m, 0) none [] [] [] hemb (by intro q hq; cases hq)
+    have e1 : Q13.K_Outlines = RD_OUTLINES := by decide
+    have e2 : Q13.K_First = RD_FIRST := by decide
+    have e3 : Q13.K_Dests = RD_DESTS := by decide
+    have e4 : Q13.K_Names = RD_NAMES := by decide
+    have hgo : Q13.getOutlines tr os = .ok (outL (t :: r), []) := by
+      simp only [Q13.getOutlines, hcat, Q13.getDictInDict, Q13.destTree, e1, e2, e3, e4, hout, hrootd,
+        rootDict_get_first, firstId_cons, Option.map, oref, hfirst, hnd, hnn, Option.bind, hwalk]
       simp
     have hflat := setupIds_out _ (t :: r) (Nat.le_refl _) 1 []
       (by simpa using nodup_titleBytes _ hdistinct hscalar)
